@@ -180,7 +180,7 @@ def judge(tgt_bytes, srcs, line_out):
 
 
 # ------------------------------------------------------------------ generation
-def zck_file(wd, name, data, dict_data=None, uflag=False, manual=True):
+def zck_file(wd, name, data, dict_data=None, uflag=False, manual=True, comp=None):
     zck = vlib.ensure_tool("zck", "plain")
     src = os.path.join(wd, name)
     dst = src + ".zck"
@@ -196,6 +196,8 @@ def zck_file(wd, name, data, dict_data=None, uflag=False, manual=True):
         cmd += ["-m", "-s", "<text:"]
     if uflag:
         cmd += ["-u"]
+    if comp:
+        cmd += ["--compression-format", comp]
     cmd.append(src)
     p = subprocess.run(cmd, stdout=subprocess.PIPE, stderr=subprocess.PIPE, timeout=120, env=dict(os.environ, **vlib.ASAN_ENV))
     if p.returncode != 0 or not os.path.exists(dst):
@@ -331,6 +333,14 @@ def gen_cases(rng, tier, wd):
             SAp = variants[2][1]
             if SAp:
                 out.append(("cross-comp-noflag", [SAp], header_of(TU), "m0,c0"))
+        # the same with dictionaries: every dictionary entry carries the uncompressed digest of the EMPTY message
+        # (comp_init never feeds the dictionary into that hash), so only the length keeps different dictionaries apart
+        for k, (ld1, ld2) in enumerate(((2000, 3000), (300, 300), (64, 65))):
+            Sd = zck_file(wd, "ud%d_%d" % (rnd, k), A, rng.rbytes(ld1), uflag=True)
+            Td = zck_file(wd, "ue%d_%d" % (rnd, k), B, rng.rbytes(ld2), uflag=True, comp="none")
+            if Sd and Td:
+                out.append(("cross-comp-uflag-dicts", [Sd], header_of(Td), "m0"))
+                out.append(("cross-comp-uflag-dicts", [Sd], header_of(Td), "f,z,m0,c0"))
     return out
 
 
